@@ -15,6 +15,15 @@
    inherited in the directory of the location that wrote them (base paths), so a
    version is readable iff its manifest and all those data files exist.
 
+   Deliberately left open (the property does not decide them, so no scenario
+   is generated for them and the validator does not judge them):
+     * deleting a branch from which another live branch / clone was created, or
+       which a tag names (DeleteBranch is enabled only when NoDependents);
+     * a shallow CLONE that loses inherited files to a cleanup of its source:
+       docs/src/format/table/layout.md says the source "can be garbage collected
+       independently" (the intended design here keeps such files; the trace
+       validator counts the event as informational instead of reporting it).
+
    Deviations name behaviours of the code as built that differ from this
    intended design (none is enabled in the configuration that must hold):
      "CharPrefixCleanupPath"   Branches::get_cleanup_path compares names character-wise
